@@ -86,31 +86,31 @@ pub fn read_u32_as_usize<R: Read>(reader: &mut R) -> usize {
 }
 
 pub fn write_u8<W: Write>(writer: &mut W, value: u8) -> Result<()> {
-    writer.write(&[value])?;//.expect(&format!("Problem writing u8 to data sink: {}", value)?;
+    writer.write_all(&[value])?;//.expect(&format!("Problem writing u8 to data sink: {}", value)?;
     Ok(())
 }
 
 pub fn write_bool<W: Write>(writer: &mut W, value: bool) -> Result<()> {
     let byte = if value { 1 } else { 0 };
-    writer.write(&[byte])?;//.expect(&format!("Problem writing bool to data sink: {}", value))?;
+    writer.write_all(&[byte])?;//.expect(&format!("Problem writing bool to data sink: {}", value))?;
     Ok(())
 }
 
 pub fn write_u16<W: Write>(writer: &mut W, value: u16) -> Result<()> {
     let buf = value.to_le_bytes();
-    writer.write(&buf)?;//.expect(&format!("Problem writing u16 to data sink: {}", value))?;
+    writer.write_all(&buf)?;//.expect(&format!("Problem writing u16 to data sink: {}", value))?;
     Ok(())
 }
 
 pub fn write_u32<W: Write>(writer: &mut W, value: u32) -> Result<()> {
     let buf = value.to_le_bytes();
-    writer.write(&buf)?;//.expect(&format!("Problem writing u32 to data sink: {}", value));
+    writer.write_all(&buf)?;//.expect(&format!("Problem writing u32 to data sink: {}", value));
     Ok(())
 }
 
 pub fn write_i32<W: Write>(writer: &mut W, value: i32) -> Result<()> {
     let buf = value.to_le_bytes();
-    writer.write(&buf)?;//.expect(&format!("Problem writing i32 to data sink: {}", value));
+    writer.write_all(&buf)?;//.expect(&format!("Problem writing i32 to data sink: {}", value));
     Ok(())
 }
 
@@ -118,7 +118,7 @@ pub fn write_utf8<R: Write>(writer: &mut R, string: &str) -> Result<()> {
     let byte_vector: Vec<u8> = string.bytes().collect();
     let bytes = byte_vector.as_slice();
     write_usize_as_u32(writer, bytes.len())?;
-    writer.write(bytes)?;
+    writer.write_all(bytes)?;
     Ok(())
         //.expect(&format!("Problem writing UTF-8 string to data sink: {}", string));
 }
